@@ -2,7 +2,7 @@
 From stdpp Require Import gmap.
 From Coq Require Import NArith ZArith String.
 Local Open Scope string_scope.
-From SkV Require Import Bytes Vlq Codec Merkle Ledger ChainState Pow Validate Sx Entry.
+From SkV Require Import Bytes Vlq Codec Merkle Ledger ChainState Pow Validate Sx Entry EntryNode.
 Open Scope N_scope.
 Open Scope list_scope.
 
@@ -138,6 +138,8 @@ Definition dispatch_chain (tbl : sx) (name : bytes) (arg : sx) : sx :=
 
 Definition dispatch_all (tbl : sx) (name : bytes) (arg : sx) : sx :=
   match dispatch tbl name arg with
-  | SL [SN 777] => dispatch_chain tbl name arg
+  | SL [SN 777] => match dispatch_chain tbl name arg with
+                   | SL [SN 777] => dispatch_node name arg
+                   | r => r end
   | r => r
   end.
